@@ -97,6 +97,11 @@ func (v *FnView) Calls(names ...string) []CallInfo {
 // that in every such call argument i matches pats[i] ("" = don't care).
 func (v *FnView) RequireCallArgs(rule string, min int, callee string, pats ...string) []CallInfo {
 	calls := v.Calls(callee)
+	if len(calls) < min {
+		// the call may have moved into a helper of the same package: look one level down and
+		// render the helper's arguments in this function's terms
+		calls = append(calls, v.callsThroughHelpers(callee)...)
+	}
 	construct := v.Name() + ":call:" + callee
 	if len(calls) < min {
 		v.C.Fail(rule, construct, v.Fn.Pos(),
@@ -142,6 +147,16 @@ func (v *FnView) RequireStore(rule string, min int, addrPat string, valPats ...s
 		for _, p := range valPats {
 			if wild(p, st.Val) {
 				ok = true
+			}
+		}
+		if !ok {
+			// the value may come out of a helper of the same package that returns exactly
+			// the required form (a block moved into a function)
+			ex := expandSym(v.S, st.In.Val, 2)
+			for _, p := range valPats {
+				if ex != st.Val && wild(p, ex) {
+					ok = true
+				}
 			}
 		}
 		if !ok {
